@@ -2,7 +2,6 @@
 //! Near-valid layouts: a valid realised array is decomposed into (type, len, offset, validity, buffers, children),
 //! one or two layout mutations are applied, and the result is fed to every validating entry point.
 //! Oracle: implementation accepts  =>  the independent validator accepts (and a bounded accessor walk does not panic).
-use arrow_array::cast::AsArray;
 use arrow_array::types::*;
 use arrow_array::*;
 use arrow_buffer::{BooleanBuffer, Buffer, NullBuffer, OffsetBuffer, RunEndBuffer, ScalarBuffer};
@@ -33,7 +32,8 @@ struct Parts {
 }
 
 fn getb(d: &[u8], i: usize) -> bool {
-    d[i / 8] >> (i % 8) & 1 == 1
+    // out-of-range (after an earlier mutation) reads as "valid"
+    d.get(i / 8).map(|b| b >> (i % 8) & 1 == 1).unwrap_or(true)
 }
 
 fn aligned(bytes: &[u8]) -> Buffer {
@@ -103,7 +103,33 @@ fn feed(p: &Parts, e: Entry) -> Outcome {
 
 /// bounded exercise of safe accessors and kernels on an accepted array
 fn accessor_walk(d: &ArrayData, what: &str) -> CaseResult {
-    let arr = no_panic(&format!("{}:make_array", what), || make_array(d.clone()))?;
+    // bounded: layouts without buffers (Null, empty structs) are valid at any length
+    if d.len() > 1 << 16 {
+        return Ok(());
+    }
+    let arr = match catch(|| make_array(d.clone())) {
+        Ok(a) => a,
+        Err(p) => {
+            // known finding F1 (struct offset convention): any layout containing a struct node below an offset
+            let has_struct = {
+                fn any_struct(dt: &DataType) -> bool {
+                    match dt {
+                        DataType::Struct(_) | DataType::Map(..) => true,
+                        DataType::List(f) | DataType::LargeList(f) | DataType::ListView(f) | DataType::LargeListView(f) | DataType::FixedSizeList(f, _) => any_struct(f.data_type()),
+                        DataType::Union(uf, _) => uf.iter().any(|(_, f)| any_struct(f.data_type())),
+                        DataType::Dictionary(_, v) => any_struct(v),
+                        DataType::RunEndEncoded(_, v) => any_struct(v.data_type()),
+                        _ => false,
+                    }
+                }
+                any_struct(d.data_type())
+            };
+            if has_struct && p.msg.contains("end <= self.len()") {
+                return Err(Fail::new("make_array:struct:sliced-arraydata", format!("make_array panics on a layout validate_full accepts (struct child sliced twice): {} at {}", p.msg, p.loc)));
+            }
+            return Err(Fail::new(format!("{}:make_array:{}", what, p.sig()), format!("{}: make_array panicked at {}: {}", what, p.loc, p.msg)));
+        }
+    };
     no_panic(&format!("{}:walk", what), || {
         let _ = extract(arr.as_ref());
         if let Ok(f) = ArrayFormatter::try_new(arr.as_ref(), &FormatOptions::default()) {
@@ -218,7 +244,7 @@ fn mutate(t: &mut Tape, p: &mut Parts, strict: bool, excluded: &mut Vec<String>)
                 }
                 None
             }
-            8 if p.nullbuf.is_some() => {
+            8 if p.nullbuf.is_some() && p.len <= 1 << 16 => {
                 let actual = (0..p.len).filter(|i| !getb(p.nullbuf.as_ref().unwrap().as_slice(), p.offset + i)).count();
                 let wrong = if t.bool() { actual + 1 + t.below(3) } else { actual.saturating_sub(1 + t.below(2)) };
                 if wrong != actual {
@@ -250,7 +276,10 @@ fn mutate(t: &mut Tape, p: &mut Parts, strict: bool, excluded: &mut Vec<String>)
             _ => None,
         }
     } else {
-        // type-directed single-value corruption
+        // type-directed single-value corruption (not after a length/offset blow-up by an earlier mutation)
+        if p.len > 1 << 16 || p.offset > 1 << 16 {
+            return None;
+        }
         let valid = valid_slots(p);
         match p.dt.clone() {
             D::Utf8 | D::Binary | D::LargeUtf8 | D::LargeBinary | D::List(_) | D::LargeList(_) | D::Map(..) => {
@@ -525,7 +554,14 @@ fn sub_arraydata(c: &mut Case) -> CaseResult {
     let arr = realise(&mut c.tape, &ty, &col, true, &lay);
     // also exercise ArrayData-level slicing (offset > 0 on the node) for types where it is sound (not struct: F1)
     let mut data = arr.to_data();
-    if n >= 2 && c.tape.chance(90) && !matches!(ty, LType::Struct(_)) {
+    // known finding F1: ArrayData::slice of a Struct node slices the children AND keeps the offset, which
+    // StructArray::from(ArrayData) applies again -> make_array panics. Types containing a struct are therefore not
+    // sliced at the ArrayData level here (excluded by construction, counted); repro in the `findings` sub-check.
+    let has_struct = ty.any(&|t| matches!(t, LType::Struct(_) | LType::Map { .. }));
+    if has_struct && !c.strict {
+        c.exclude("F1-arraydata-slice-struct");
+    }
+    if n >= 2 && c.tape.chance(90) && (c.strict || !has_struct) {
         let o = 1 + c.tape.below(n - 1);
         data = data.slice(o, n - o);
         c.class("node-offset>0");
@@ -543,9 +579,15 @@ fn sub_arraydata(c: &mut Case) -> CaseResult {
         let nm = if c.tape.chance(40) { 2 } else { 1 };
         for _ in 0..nm {
             let strict = c.strict;
-            if let Some((k, d)) = mutate(&mut c.tape, &mut p, strict, &mut excluded) {
-                kinds.push(k);
-                descs.push(d);
+            let before = p.clone();
+            // a panic inside the mutation operator itself (e.g. indexing a buffer an earlier mutation removed) = no mutation
+            match catch(|| mutate(&mut c.tape, &mut p, strict, &mut excluded)) {
+                Ok(Some((k, d))) => {
+                    kinds.push(k);
+                    descs.push(d);
+                }
+                Ok(None) => {}
+                Err(_) => p = before,
             }
         }
     }
@@ -1027,6 +1069,58 @@ fn sub_typed(c: &mut Case) -> CaseResult {
     Ok(())
 }
 
+/// hand-written reproductions of the known findings, judged by the same oracle (signatures coincide with generated cases)
+fn sub_findings(c: &mut Case) -> CaseResult {
+    let _ = c.tape.u64();
+    c.nontrivial();
+    c.describe(json!({"finding_case": c.index}));
+    let i32s = |n: usize| -> ArrayData { Int32Array::from((0..n as i32).collect::<Vec<_>>()).to_data() };
+    let (p, family, kind): (Parts, &str, &str) = match c.index {
+        0 => {
+            // Struct with offset 2, len 2 whose child has only 3 slots
+            let dt = DataType::Struct(Fields::from(vec![Field::new("a", DataType::Int32, true)]));
+            (Parts { dt, len: 2, offset: 2, nullbuf: None, null_count: None, buffers: vec![], children: vec![i32s(3)] }, "struct", "child-too-short")
+        }
+        1 => {
+            let dt = DataType::FixedSizeList(Arc::new(Field::new("item", DataType::Int32, true)), 2);
+            (Parts { dt, len: 2, offset: 2, nullbuf: None, null_count: None, buffers: vec![], children: vec![i32s(6)] }, "fixedlist", "child-too-short")
+        }
+        2 | 3 => {
+            let uf = UnionFields::try_new(vec![1i8, 4], vec![Field::new("a", DataType::Int32, true), Field::new("b", DataType::Int32, true)]).unwrap();
+            let dense = c.index == 3;
+            let dt = DataType::Union(uf, if dense { UnionMode::Dense } else { UnionMode::Sparse });
+            let ids = aligned(&if dense { [1u8, 4, 1] } else { [1u8, 2, 4] });
+            let mut buffers = vec![ids];
+            if dense {
+                let mut o = vec![];
+                for v in [0i32, 0, 7] {
+                    o.extend_from_slice(&v.to_le_bytes());
+                }
+                buffers.push(aligned(&o));
+            }
+            (Parts { dt, len: 3, offset: 0, nullbuf: None, null_count: None, buffers, children: vec![i32s(3), i32s(3)] }, "union", if dense { "union-dense-offset" } else { "union-type-id" })
+        }
+        4 => {
+            let dt = DataType::RunEndEncoded(Arc::new(Field::new("run_ends", DataType::Int32, false)), Arc::new(Field::new("values", DataType::Int32, true)));
+            let re = Int32Array::from(vec![2, 4]).to_data();
+            (Parts { dt, len: 9, offset: 0, nullbuf: None, null_count: None, buffers: vec![], children: vec![re, i32s(2)] }, "runend", "len-beyond-last-run-end")
+        }
+        5 => {
+            // F1: validate_full accepts the sliced struct data, make_array panics
+            let st = StructArray::try_new(Fields::from(vec![Field::new("a", DataType::Int32, true)]), vec![Arc::new(Int32Array::from(vec![1, 2, 3])) as ArrayRef], None).unwrap();
+            let sliced = st.to_data().slice(1, 2);
+            if sliced.validate_full().is_ok() {
+                if let Err(p) = catch(|| make_array(sliced.clone())) {
+                    return Err(Fail::new("make_array:struct:sliced-arraydata", format!("validate_full accepts struct_data.slice(1,2) but make_array panics: {} at {}", p.msg, p.loc)));
+                }
+            }
+            return Ok(());
+        }
+        _ => return Ok(()),
+    };
+    judge(c, &p, true, kind, family)
+}
+
 fn main() {
     Check::new(
         "C09",
@@ -1036,7 +1130,8 @@ fn main() {
     .assume("a panic inside a validating constructor counts as rejection (many are documented `# Panics`)")
     .assume("field nullability is not judged for ArrayData-level entry points (layout only); typed constructors are held to their documented nullability checks")
     .assume("children are always built by checked constructors (ArrayData documents that children built unchecked are trusted)")
-    .sub(Sub::new("arraydata", 20000, 600000, sub_arraydata).tape(256, 6000).require(&["control:accepted", "outcome:rejected-err", "node-offset>0"]))
-    .sub(Sub::new("typed", 20000, 400000, sub_typed).tape(64, 600).require(&["control:accepted", "outcome:rejected-err", "outcome:rejected-panic"]))
+    .sub(Sub::new("findings", 0, 0, sub_findings).enumerate(6, 6))
+    .sub(Sub::new("arraydata", 150000, 3000000, sub_arraydata).tape(256, 6000).require(&["control:accepted", "outcome:rejected-err", "node-offset>0"]))
+    .sub(Sub::new("typed", 100000, 1500000, sub_typed).tape(64, 600).require(&["control:accepted", "outcome:rejected-err", "outcome:rejected-panic"]))
     .run()
 }
